@@ -52,6 +52,8 @@ class ModelBackend:
         self.illegal: list[dict] = []
         self.timers: list[tuple] = []      # (due, id, kind)
         self.timer_lag = timer_lag
+        self.empty_pages = set()           # numbers of the page fetches that return an empty page with a marker
+        self.trailing_empty_page = False
         self.inv = 0
         self.api_calls = 0                 # checkpoint API calls (incl. failed ones)
         self.calls: list[dict] = []        # per checkpoint call: {n, inv, token, ids, ok, err}
@@ -151,6 +153,8 @@ class ModelBackend:
         self.stream.append({"inv": self.inv, "call": self.api_calls, "id": oid, "type": typ, "action": act,
                             "parent": u.get("ParentId"), "name": u.get("Name"), "subtype": u.get("SubType"),
                             "payload_len": len(u.get("Payload") or ""), "t": now, "legal": why is None,
+                            "invoke": ((u.get("Payload"), (u.get("ChainedInvokeOptions") or {}).get("FunctionName"))
+                                       if typ == "CHAINED_INVOKE" else None),
                             "delay": (u.get("StepOptions") or {}).get("NextAttemptDelaySeconds"),
                             "status_before": self.status(oid)})
         if typ == "EXECUTION":
@@ -381,9 +385,17 @@ class ModelBackend:
                 self.on_call("GetStateFail", {"marker": Marker, "n": self.get_state_calls})
             raise ClientError(500, "ServiceException", "get state failed")
         ops, page = self.state_pages.pop(Marker)
+        if self.get_state_calls in self.empty_pages:
+            # a page without operations that still announces a further page (a listing is only over when no marker comes back)
+            out = {"Operations": [], "NextMarker": self._park(ops, page)}
+            if self.on_call:
+                self.on_call("GetState", {"marker": Marker, "n": 0})
+            return out
         out = {"Operations": ops[:page]}
         if len(ops) > page:
             out["NextMarker"] = self._park(ops[page:], page)
+        elif self.trailing_empty_page and ops:
+            out["NextMarker"] = self._park([], page)       # the last operations are followed by one more, empty, page
         if self.on_call:
             self.on_call("GetState", {"marker": Marker, "n": len(out["Operations"])})
         return out
